@@ -169,11 +169,48 @@ def gen_c08(g, lines, k):
     probe("last-%d" % k)
     lines.append("wire end")
 
+def gen_c15(g, lines, k):
+    """two services in one configuration file, started the way main() starts them (startProxies): the first one sets
+    dialogTimeout: 1, the second one leaves it to the default (1200 s). A dialog pinned on the second service is still
+    pinned one and a half seconds later."""
+    base = 26000 + NONCE * 800 + 760 + (k % 2) * 16
+    lip = "127.0.0.1"
+    P1, P2, B1, B2, B3, UP = base, base + 1, base + 2, base + 3, base + 4, base + 5
+    b1, b2, b3, ua = "127.0.1.1:%d" % B1, "127.0.1.2:%d" % B2, "127.0.1.3:%d" % B3, "127.0.2.1:%d" % UP
+    y = ("proxies:\n- name: one.test\n  dialogTimeout: 1\n  listens:\n  - address: %s\n    udp-port: %d\n    backends:\n    - udp://%s\n"
+         "- name: two.test\n  listens:\n  - address: %s\n    udp-port: %d\n    backends:\n    - udp://%s\n    - udp://%s\n") % (lip, P1, b1, lip, P2, b2, b3)
+    lines.append("wire startall %s" % hx(y))
+    for x in (b1, b2, b3, ua):
+        lines.append("wire bind %s" % hx(x))
+    call = g.word(ALNUM, 8, 12)
+    v = Via("UDP", "127.0.2.1", UP, [("branch", "z9hG4bK" + g.word(ALNUM.upper(), 6, 9))])
+    inv = msg("INVITE sip:two.test SIP/2.0", [("Via", v.text()), ("From", "<sip:a@ua.test>;tag=f1"), ("To", "<sip:b@two.test>"), ("Call-ID", call), ("CSeq", "1 INVITE")])
+    lines.append("wire udp %s %s %s" % (hx(ua), hx("%s:%d" % (lip, P2)), hx(inv)))
+    # the rotation's first dispatch goes to the second backend
+    lines.append("wire recv %s 1500 msg=%s # spec=C15 dest U %s" % (hx(b3), hx(inv), hx(b3)))
+    own = "SIP/2.0/UDP %s:%d;branch=%s" % (lip, P2, BR)
+    ok = msg("SIP/2.0 200 OK", [("Via", own), ("Via", v.stamped("127.0.2.1", UP).text()), ("From", "<sip:a@ua.test>;tag=f1"), ("To", "<sip:b@two.test>;tag=t1"), ("Call-ID", call), ("CSeq", "1 INVITE")])
+    lines.append("wire udp %s %s %s" % (hx(b3), hx("%s:%d" % (lip, P2)), hx(ok)))
+    lines.append("wire recv %s 1500 msg=%s # spec=C15 dest U %s" % (hx(ua), hx(ok), hx(ua)))
+    lines.append("wire sleep 1600")
+    for i in range(4):
+        vi = Via("UDP", "127.0.2.1", UP, [("branch", "z9hG4bK" + g.word(ALNUM.upper(), 6, 9))])
+        info = msg("INFO sip:two.test SIP/2.0", [("Via", vi.text()), ("From", "<sip:a@ua.test>;tag=f1"), ("To", "<sip:b@two.test>;tag=t1"), ("Call-ID", call), ("CSeq", "%d INFO" % (2 + i))])
+        lines.append("wire udp %s %s %s" % (hx(ua), hx("%s:%d" % (lip, P2)), hx(info)))
+        lines.append("wire recv %s 1500 msg=%s # spec=C15 dest U %s" % (hx(b3), hx(info), hx(b3)))
+    lines.append("wire recv %s 150 msg=%s # spec=C15 dest none" % (hx(b2), hx(inv)))
+    g.count("wire_c15_two_services")
+    lines.append("wire end")
+
 def generate(seed, tier, focus="c07"):
     g = Gen(seed)
     lines = []
     n = 6 if tier == "quick" else 60
     for k in range(n):
+        if focus == "c15":
+            if k < (1 if tier == "quick" else 2):
+                gen_c15(g, lines, k)
+            continue
         if focus == "c08":
             if k < (2 if tier == "quick" else 30):
                 gen_c08(g, lines, k)
